@@ -174,6 +174,61 @@ func TestCampaign(t *testing.T) {
 			col.Scope(fmt.Sprintf("all message sequences of total length %d over the %d-symbol alphabet on 2 sessions", n, len(syms)), cnt, true)
 		}
 	})
+	t.Run("long-streams", func(t *testing.T) {
+		// the K-th message of a long-lived stream: every symbol of the alphabet as message
+		// number K+1 of a session that negotiated and then announced the same election id
+		// K-1 times, for K around powers of two, with and without a second live session
+		syms := symbols(true)
+		ks := []int{2, 3, 15, 16, 17, 63, 64, 65, 255, 256, 257}
+		if ev.Thorough() {
+			ks = append(ks, 31, 32, 33, 127, 128, 129, 511, 512, 513, 1023, 1024, 1025, 4095, 4096, 4097, 65535, 65536, 65537)
+		}
+		sk, ns := ev.Shard()
+		cnt, bad, idx := 0, 0, 0
+		for _, k := range ks {
+			for y := range syms {
+				for other := 0; other < 2; other++ {
+					idx++
+					if idx%ns != sk {
+						continue
+					}
+					sc := sess.Script{FwdRefs: true}
+					std := sess.ParamSpec{Red: 1, Persist: 1, Ack: 0}
+					if other == 1 {
+						sc.Steps = append(sc.Steps, sess.Step{S: 1, K: "params", P: &std}, sess.Step{S: 1, K: "elec", ID: &gen.ID128{Lo: 1}})
+					}
+					sc.Steps = append(sc.Steps, sess.Step{S: 0, K: "params", P: &std}, sess.Step{S: 0, K: "elec", ID: &gen.ID128{Lo: 2}, Rep: k - 2})
+					sy := syms[y]
+					st := sess.Step{S: 0, K: sy.k, P: sy.p, ID: sy.id, Multi: sy.multi}
+					if sy.k == "ops" {
+						var stamp *gen.ID128
+						switch sy.stamp {
+						case "own":
+							stamp = &gen.ID128{Lo: 2}
+						case "wrong":
+							stamp = &gen.ID128{Lo: 9}
+						}
+						st.Ops = []*gen.Op{nhOp(1, stamp)}
+					}
+					sc.Steps = append(sc.Steps, st)
+					// the session (if it survived) and the other one go on
+					sc.Steps = append(sc.Steps, sess.Step{S: 0, K: "elec", ID: &gen.ID128{Lo: 3}}, sess.Step{S: 1, K: "elec", ID: &gen.ID128{Lo: 4}})
+					c := Case{Script: sc}
+					v := runCase(c)
+					v.Class("long-stream")
+					v.NonTrivial = true
+					cnt++
+					if fresh := col.Record(ev.JSON(c), v); len(fresh) > 0 {
+						bad++
+						if bad <= 3 {
+							t.Errorf("%s: %v", ev.JSON(c), fresh)
+						}
+					}
+				}
+			}
+		}
+		col.Scope("every alphabet symbol as message K+1 of a long-lived negotiated stream, K around powers of two, with/without a second live session", cnt, true)
+	})
 	t.Run("random", func(t *testing.T) {
 		syms := symbols(true)
 		// bias: most sessions start with valid parameters so that later violations are reached
@@ -212,5 +267,5 @@ func minimize(sig string, cs []byte) []byte {
 	if err := json.Unmarshal(cs, &c); err != nil {
 		return nil
 	}
-	return ev.JSON(Case{Script: sess.Minimize(c.Script, func(s sess.Script) bool { return runCase(Case{Script: s}).HasSig(sig) })})
+	return ev.JSON(Case{Script: sess.Minimize(c.Script, ev.Bounded(func(s sess.Script) bool { return runCase(Case{Script: s}).HasSig(sig) }))})
 }
